@@ -78,6 +78,7 @@ def main():
     ap.add_argument("--funcs", default=FUNCS_DEFAULT)
     ap.add_argument("--check", default="ENG")
     ap.add_argument("--out", default="/verif/build/mutscan.json")
+    ap.add_argument("--rerun", default="", help="JSON of an earlier scan: run only its MISSED / check-error mutants again")
     a = ap.parse_args()
     sh(["git", "-C", "/repo", "worktree", "remove", "--force", WT])
     rc, out = sh(["git", "-C", "/repo", "worktree", "add", "-q", "--detach", WT, "HEAD"])
@@ -90,6 +91,9 @@ def main():
             allm.append(m)
     random.Random(a.seed).shuffle(allm)
     sample = allm[:a.n]
+    if a.rerun:
+        want = {(m["file"], m["line"], m["kind"], m["new"]) for m in json.load(open(a.rerun)) if m["status"] in ("MISSED", "check-error")}
+        sample = [m for m in allm if (m["file"], m["line"], m["kind"], m["new"]) in want]
     print(f"{len(allm)} candidate mutants, running {len(sample)} (seed {a.seed})", flush=True)
     res = []
     try:
